@@ -50,8 +50,8 @@ Rep(n, x) == [i \in 1..n |-> x]
 
 MFresh == [fitted |-> FALSE, data |-> None, chain |-> [s \in Stages |-> <<>>], ndata |-> 0,
            edata |-> None, lazy |-> FALSE, sorted |-> FALSE, order |-> "raw",
-           namesOK |-> TRUE, tf |-> None]
-RFresh == [fitted |-> FALSE, base |-> None, shares |-> FALSE, lazy |-> FALSE, sorted |-> FALSE,
+           namesOK |-> TRUE, tf |-> None, hasInput |-> FALSE]
+RFresh == [fitted |-> FALSE, base |-> None, shares |-> FALSE, prep |-> None, lazy |-> FALSE, sorted |-> FALSE,
            order |-> "raw"]
 
 Init == /\ m = MFresh /\ r = RFresh /\ snaps = <<>> /\ last = [kind |-> "init"]
@@ -71,35 +71,48 @@ UsedData(x) == LET n == IF x.data = None THEN 0 ELSE NItems[x.data]
                IN  { x.chain[s][i] : s \in Stages, i \in 1..n } \cup {x.edata}
 
 ResultsLazy == DaskInput /\ ~Eager
+\* the statement forbids any dask computation during fit / rotator fit exactly
+\* when compute=False and check_nans=False; elsewhere the code may compute
+FitMayCompute == IF ~Eager /\ ~CheckNans THEN "no" ELSE "may"
 
 FitResult(x, d, newChain, keepSorted) ==
     LET base == [x EXCEPT !.fitted = TRUE, !.data = d, !.chain = newChain, !.ndata = NItems[d],
-                          !.edata = d, !.lazy = ResultsLazy, !.order = "raw", !.tf = d,
+                          !.edata = d, !.lazy = ResultsLazy, !.order = "raw", !.tf = d, !.hasInput = TRUE,
                           !.sorted = IF keepSorted THEN @ ELSE FALSE]
     IN  IF Eager /\ Cap.sorts THEN SortStep(base) ELSE base
+
+\* rotator.fit(model) stores a reference to the model's Preprocessor object;
+\* while that object is shared, refitting the model re-fits the rotator's
+\* preprocessor too (r.prep = the data its preprocessor is fitted to).  The
+\* statements say nothing about a rotator whose model was refitted, so the
+\* rotator's answers are only specified while r.prep = r.base.
+RAfterFit(d) == IF r.fitted /\ r.shares THEN [r EXCEPT !.prep = d] ELSE r
 
 -----------------------------------------------------------------------------
 (* model.fit(d) : every stage is rebuilt from d; nothing of an earlier fit survives *)
 Fit(d) ==
     /\ m' = FitResult(m, d, [s \in Stages |-> Rep(NItems[d], d)], FALSE)
-    /\ last' = [kind |-> "fit", arg |-> d, computes |-> DaskInput /\ (Eager \/ CheckNans)]
-    /\ UNCHANGED <<r, snaps>>
+    /\ last' = [kind |-> "fit", arg |-> d, computes |-> FitMayCompute]
+    /\ r' = RAfterFit(d)
+    /\ UNCHANGED snaps
 
 \* what list_processor.py did before the repair: fit appends
 Dev_FitAppends(d) ==
     /\ "FitAppends" \in Deviations
     /\ m.fitted
     /\ m' = FitResult(m, d, [s \in Stages |-> m.chain[s] \o Rep(NItems[d], d)], FALSE)
-    /\ last' = [kind |-> "fit", arg |-> d, computes |-> DaskInput /\ (Eager \/ CheckNans)]
-    /\ UNCHANGED <<r, snaps>>
+    /\ last' = [kind |-> "fit", arg |-> d, computes |-> FitMayCompute]
+    /\ r' = RAfterFit(d)
+    /\ UNCHANGED snaps
 
 \* what pop.py did before the repair: the sorted flag survives a refit
 Dev_RefitKeepsSorted(d) ==
     /\ "RefitKeepsSorted" \in Deviations
     /\ m.fitted /\ Cap.sorts
     /\ m' = FitResult(m, d, [s \in Stages |-> Rep(NItems[d], d)], TRUE)
-    /\ last' = [kind |-> "fit", arg |-> d, computes |-> DaskInput /\ (Eager \/ CheckNans)]
-    /\ UNCHANGED <<r, snaps>>
+    /\ last' = [kind |-> "fit", arg |-> d, computes |-> FitMayCompute]
+    /\ r' = RAfterFit(d)
+    /\ UNCHANGED snaps
 
 (* model.transform(d): needs the same number of items; only writes the
    unseen-sample bookkeeping (coords_from_transform, coords_out) *)
@@ -108,7 +121,7 @@ Transform(d) ==
     /\ NItems[d] = m.ndata
     /\ m' = [m EXCEPT !.tf = d]
     /\ last' = [kind |-> "transform", arg |-> d, used |-> UsedData(m), labelsFrom |-> d,
-                order |-> m.order, computes |-> DaskInput /\ CheckNans]
+                order |-> m.order]
     /\ UNCHANGED <<r, snaps>>
 
 TransformRefused(d) ==
@@ -124,7 +137,7 @@ Dev_TransformLabelsFromFit(d) ==
     /\ m.fitted /\ Cap.hasTransform /\ NItems[d] = m.ndata
     /\ m' = [m EXCEPT !.tf = d]
     /\ last' = [kind |-> "transform", arg |-> d, used |-> UsedData(m), labelsFrom |-> m.data,
-                order |-> m.order, computes |-> DaskInput /\ CheckNans]
+                order |-> m.order]
     /\ UNCHANGED <<r, snaps>>
 
 (* model.inverse_transform(scores) *)
@@ -149,11 +162,11 @@ Dev_QueryReadsTransformCoords ==
 (* model.compute(): BaseModel.compute = serialize, dask.compute the allowed
    entries, rebuild every attached object from the tree, _post_compute *)
 Compute ==
-    /\ m.fitted /\ m.namesOK
+    /\ m.fitted /\ m.namesOK /\ Cap.computable
     /\ LET c == [m EXCEPT !.lazy = FALSE]
        IN  m' = IF Cap.sorts THEN SortStep(c) ELSE c
     /\ r' = [r EXCEPT !.shares = FALSE]      \* the model now owns a rebuilt preprocessor
-    /\ last' = [kind |-> "compute", computes |-> m.lazy]
+    /\ last' = [kind |-> "compute"]
     /\ UNCHANGED snaps
 
 Dev_ComputeSortsAgain ==
@@ -161,20 +174,22 @@ Dev_ComputeSortsAgain ==
     /\ m.fitted /\ m.namesOK /\ Cap.sorts
     /\ m' = Dev_SortStepAlways([m EXCEPT !.lazy = FALSE])
     /\ r' = [r EXCEPT !.shares = FALSE]
-    /\ last' = [kind |-> "compute", computes |-> m.lazy]
+    /\ last' = [kind |-> "compute"]
     /\ UNCHANGED snaps
 
 (* model.serialize() and Class.deserialize(tree) *)
-Serialize ==
+\* ph: the tree travels with the input data replaced by placeholders (save_data=False)
+Serialize(ph) ==
     /\ m.fitted /\ Cap.serializable /\ m.namesOK
     /\ Len(snaps) < MaxSnaps
-    /\ snaps' = Append(snaps, m)
-    /\ last' = [kind |-> "serialize"]
+    /\ snaps' = Append(snaps, [mdl |-> m, ph |-> ph])
+    /\ last' = [kind |-> "serialize", ph |-> ph]
     /\ UNCHANGED <<m, r>>
 
+Restored(sn) == [sn.mdl EXCEPT !.hasInput = @ /\ ~sn.ph]
 Deserialize(i) ==
     /\ i \in 1..Len(snaps)
-    /\ m' = snaps[i]
+    /\ m' = Restored(snaps[i])
     /\ r' = [r EXCEPT !.shares = FALSE]
     /\ last' = [kind |-> "deserialize", snap |-> i]
     /\ UNCHANGED snaps
@@ -183,7 +198,7 @@ Deserialize(i) ==
 Dev_DeserializeDropsSorted(i) ==
     /\ "DeserializeDropsSorted" \in Deviations
     /\ i \in 1..Len(snaps)
-    /\ m' = [snaps[i] EXCEPT !.sorted = FALSE]
+    /\ m' = [Restored(snaps[i]) EXCEPT !.sorted = FALSE]
     /\ r' = [r EXCEPT !.shares = FALSE]
     /\ last' = [kind |-> "deserialize", snap |-> i]
     /\ UNCHANGED snaps
@@ -192,33 +207,33 @@ Dev_DeserializeDropsSorted(i) ==
    views of the model's arrays in its own containers; with compute=True it
    runs BaseModel.compute() on itself, which re-creates its preprocessor *)
 RotResult ==
-    LET base == [fitted |-> TRUE, base |-> m.edata, shares |-> TRUE, lazy |-> m.lazy \/ ResultsLazy,
+    LET base == [fitted |-> TRUE, base |-> m.edata, shares |-> TRUE, prep |-> m.data, lazy |-> m.lazy \/ ResultsLazy,
                  sorted |-> FALSE, order |-> "raw"]
     IN  IF Eager THEN SortStep([base EXCEPT !.lazy = FALSE, !.shares = FALSE]) ELSE base
 
 RotFit ==
-    /\ m.fitted /\ Cap.rotatable /\ m.namesOK
+    /\ m.fitted /\ Cap.rotatable /\ m.namesOK /\ m.hasInput
     /\ r' = RotResult
-    /\ last' = [kind |-> "rotfit", computes |-> (m.lazy \/ ResultsLazy) /\ Eager]
+    /\ last' = [kind |-> "rotfit", computes |-> FitMayCompute]
     /\ UNCHANGED <<m, snaps>>
 
 \* what DataContainer.add did before the repair: it renamed the shared arrays
 Dev_RotRenamesShared ==
     /\ "RotRenamesShared" \in Deviations
-    /\ m.fitted /\ Cap.rotatable /\ m.namesOK
+    /\ m.fitted /\ Cap.rotatable /\ m.namesOK /\ m.hasInput
     /\ r' = RotResult
     /\ m' = [m EXCEPT !.namesOK = FALSE]
-    /\ last' = [kind |-> "rotfit", computes |-> (m.lazy \/ ResultsLazy) /\ Eager]
+    /\ last' = [kind |-> "rotfit", computes |-> FitMayCompute]
     /\ UNCHANGED snaps
 
 RotCompute ==
     /\ r.fitted
     /\ r' = SortStep([r EXCEPT !.lazy = FALSE, !.shares = FALSE])
-    /\ last' = [kind |-> "rotcompute", computes |-> r.lazy]
+    /\ last' = [kind |-> "rotcompute"]
     /\ UNCHANGED <<m, snaps>>
 
 RotQuery ==
-    /\ r.fitted
+    /\ r.fitted /\ r.prep = r.base
     /\ last' = [kind |-> "rotquery", base |-> r.base, order |-> r.order, labelsFrom |-> r.base]
     /\ UNCHANGED <<m, r, snaps>>
 
@@ -226,10 +241,7 @@ RotQuery ==
 RotTransform(d) ==
     /\ r.fitted /\ Cap.hasTransform
     /\ NItems[d] = NItems[r.base]
-    \* if the preprocessor object is still shared and the model was refitted
-    \* on other data, the rotator projects with the model's new transformers;
-    \* the statement does not speak about that, so the spec does not allow it:
-    /\ r.shares => (m.data = r.base)
+    /\ r.prep = r.base
     /\ last' = [kind |-> "rottransform", arg |-> d, base |-> r.base, order |-> r.order,
                 labelsFrom |-> d]
     /\ UNCHANGED <<m, r, snaps>>
@@ -237,8 +249,7 @@ RotTransform(d) ==
 \* transform ignoring the sorted flag
 Dev_RotTransformUnsorted(d) ==
     /\ "RotTransformUnsorted" \in Deviations
-    /\ r.fitted /\ Cap.hasTransform /\ NItems[d] = NItems[r.base]
-    /\ r.shares => (m.data = r.base)
+    /\ r.fitted /\ Cap.hasTransform /\ NItems[d] = NItems[r.base] /\ r.prep = r.base
     /\ last' = [kind |-> "rottransform", arg |-> d, base |-> r.base, order |-> "raw",
                 labelsFrom |-> d]
     /\ UNCHANGED <<m, r, snaps>>
@@ -246,13 +257,13 @@ Dev_RotTransformUnsorted(d) ==
 (* bootstrapper.fit(model) with a seed: reads the model only; the bootstrapper
    object carries no state that any later call on this model reads *)
 BootFit(s) ==
-    /\ m.fitted /\ Cap.bootable /\ m.namesOK /\ ~m.lazy
+    /\ m.fitted /\ Cap.bootable /\ m.namesOK /\ ~m.lazy /\ m.hasInput
     /\ last' = [kind |-> "bootfit", seed |-> s, resample |-> s, base |-> m.edata]
     /\ UNCHANGED <<m, r, snaps>>
 
 Dev_BootIgnoresSeed(s) ==
     /\ "BootIgnoresSeed" \in Deviations
-    /\ m.fitted /\ Cap.bootable /\ m.namesOK /\ ~m.lazy
+    /\ m.fitted /\ Cap.bootable /\ m.namesOK /\ ~m.lazy /\ m.hasInput
     /\ \E x \in Seeds \cup {"entropy"} :
           last' = [kind |-> "bootfit", seed |-> s, resample |-> x, base |-> m.edata]
     /\ UNCHANGED <<m, r, snaps>>
@@ -269,7 +280,7 @@ Next ==
     \/ Dev_QueryReadsTransformCoords
     \/ Compute
     \/ Dev_ComputeSortsAgain
-    \/ Serialize
+    \/ \E ph \in BOOLEAN : Serialize(ph)
     \/ \E i \in 1..MaxSnaps : Deserialize(i)
     \/ \E i \in 1..MaxSnaps : Dev_DeserializeDropsSorted(i)
     \/ RotFit
@@ -342,9 +353,10 @@ C18_RefitResorts ==
 \* C12: a deferred fit computes nothing; compute() is the only call that may
 \* evaluate stored results
 C12_LazyFitComputesNothing ==
-    (last.kind \in {"fit", "rotfit"} /\ ~Eager /\ ~CheckNans) => ~last.computes
-C12_NoDaskNoCompute ==
-    (~DaskInput /\ last.kind \in {"fit", "rotfit", "transform", "compute", "rotcompute"}) => ~last.computes
+    (last.kind \in {"fit", "rotfit"} /\ ~Eager /\ ~CheckNans) => last.computes = "no"
+C12_DeferredResultsStayLazy ==
+    /\ (last.kind = "fit" /\ DaskInput /\ ~Eager) => m.lazy
+    /\ (last.kind = "rotfit" /\ DaskInput /\ ~Eager) => r.lazy
 C12_ComputeMakesEager ==
     /\ last.kind = "compute" => ~m.lazy
     /\ last.kind = "rotcompute" => ~r.lazy
@@ -352,7 +364,7 @@ C12_ComputeMakesEager ==
 \* C13: a restored snapshot is the model that was serialised
 C13_SnapshotFaithful ==
     [][\A i \in 1..MaxSnaps : (last'.kind = "deserialize" /\ last'.snap = i) =>
-         m' = snaps[i]]_vars
+         m' = Restored(snaps[i])]_vars
 
 \* C20: the resample is a function of the seed
 C20_SameSeedSameResample == last.kind = "bootfit" => last.resample = last.seed
